@@ -302,11 +302,44 @@ theorem sem_abstractOverAt (M : Model) (ρ : Valuation) (x : Term) (k : Nat) (n 
     simp only [Term.isOpenAt, ge_iff_le, decide_eq_false_iff_not, Nat.not_le] at hc
     simp only [sem, List.getElem?_append_left (h1 ▸ hc)]
 
+/-- inversion of `Lambda(x, t)` -/
+theorem Term.mkLambda_inv {x : Term} {k : Nat} {n : String} {T : Ty}
+    (hx : varKey x = some (k, n, T)) {t l : Term} (h : Term.mkLambda x t = .ok l) :
+    ∃ b, Term.abstractOverAt x 0 t = .ok b ∧ l = .abs n T b := by
+  have hv : Term.isVarLike x = true ∧ Term.nameOf x = n ∧ Term.typeOfAtom x = T := by
+    rcases varKey_cases hx with ⟨rfl, _⟩ | ⟨rfl, _⟩ <;> exact ⟨rfl, rfl, rfl⟩
+  simp only [Term.mkLambda, Term.abstractOver, hv.1, if_true, bind, Except.bind, hv.2.1,
+    hv.2.2] at h
+  cases hb : Term.abstractOverAt x 0 t with
+  | error e => simp only [hb] at h; cases h
+  | ok b =>
+    simp only [hb] at h
+    injection h with h
+    exact ⟨b, rfl, h.symm⟩
+
+/-- inversion of `Forall(x, t)` -/
+theorem Term.mkForall_inv {x : Term} {k : Nat} {n : String} {T : Ty}
+    (hx : varKey x = some (k, n, T)) {t q : Term} (h : Term.mkForall x t = .ok q) :
+    ∃ l, Term.mkLambda x t = .ok l ∧
+      q = .comb (.const "all" (Ty.fn (Ty.fn T Ty.bool) Ty.bool)) l := by
+  have hv : Term.isVarLike x = true ∧ Term.typeOfAtom x = T := by
+    rcases varKey_cases hx with ⟨rfl, _⟩ | ⟨rfl, _⟩ <;> exact ⟨rfl, rfl⟩
+  simp only [Term.mkForall, hv.1, if_true, bind, Except.bind, hv.2] at h
+  cases hl : Term.mkLambda x t with
+  | error e => simp only [hl] at h; cases h
+  | ok l =>
+    simp only [hl] at h
+    injection h with h
+    exact ⟨l, rfl, h.symm⟩
+
 /-- `Lambda(x, t)` on a closed well-typed `t` is well-typed of type `T ⇒ S` -/
 theorem checked_mkLambda (x : Term) (k : Nat) (n : String) (T : Ty) (hx : varKey x = some (k, n, T))
     (t l : Term) (S : Ty) (ht : Term.checkedGetType [] t = .ok S) (h : Term.mkLambda x t = .ok l) :
     Term.checkedGetType [] l = .ok (Ty.fn T S) := by
-  sorry
+  obtain ⟨b, hb, rfl⟩ := Term.mkLambda_inv hx h
+  have := Term.checkedGetType_abstractOverAt x k n T hx [] t b S hb ht
+  simp only [List.nil_append] at this
+  simp only [Term.checkedGetType, bind, Except.bind, this]
 
 /-- applying `Lambda(x, t)` to `v` is `t` with `x ↦ v` -/
 theorem appCode_sem_mkLambda (M : Model) (ρ : Valuation) (hρ : Admissible M ρ) (x : Term) (k : Nat)
@@ -314,20 +347,73 @@ theorem appCode_sem_mkLambda (M : Model) (ρ : Valuation) (hρ : Admissible M ρ
     (ht : Term.checkedGetType [] t = .ok S) (h : Term.mkLambda x t = .ok l) (v : Nat)
     (hv : v < M.size T) :
     appCode (sem M ρ [] [] l) v (M.size S) = sem M (ρ.update k n T v) [] [] t := by
-  sorry
+  obtain ⟨b, hb, rfl⟩ := Term.mkLambda_inv hx h
+  have hty := Term.checkedGetType_abstractOverAt x k n T hx [] t b S hb ht
+  have hcl := Term.closed_of_checked [] t S ht
+  have hs := sem_abstractOverAt M ρ x k n T hx [] [] rfl t b hb hcl v
+  simp only [List.nil_append] at hty hs
+  rw [appCode_sem_abs M ρ hρ [] [] Forall2.nil n T S b hty v hv, hs]
 
 /-- `Forall(x, t)` holds iff `t` holds for every value of `x` -/
 theorem holds_mkForall (M : Model) (ρ : Valuation) (hρ : Admissible M ρ) (x : Term) (k : Nat)
     (n : String) (T : Ty) (hx : varKey x = some (k, n, T)) (t q : Term)
     (ht : Term.checkedGetType [] t = .ok Ty.bool) (h : Term.mkForall x t = .ok q) :
     holds M ρ q ↔ ∀ v, v < M.size T → holds M (ρ.update k n T v) t := by
-  sorry
+  obtain ⟨l, hl, rfl⟩ := Term.mkForall_inv hx h
+  have hlt := checked_mkLambda x k n T hx t l Ty.bool ht hl
+  have hp : sem M ρ [] [] l < 2 ^ M.size T := by
+    have := sem_lt M ρ hρ [] [] Forall2.nil l _ hlt
+    rwa [Model.size_fn, Model.size_bool] at this
+  unfold holds
+  rw [sem_all M ρ [] [] T l hp]
+  constructor
+  · intro H v hv
+    have := appCode_sem_mkLambda M ρ hρ x k n T hx t l Ty.bool ht hl v hv
+    rw [Model.size_bool] at this
+    rw [← this]
+    exact H v hv
+  · intro H v hv
+    have := appCode_sem_mkLambda M ρ hρ x k n T hx t l Ty.bool ht hl v hv
+    rw [Model.size_bool] at this
+    rw [this]
+    exact H v hv
+
+/-- `all` is logical only at `(T ⇒ bool) ⇒ bool` -/
+theorem logicalKind_all {A T : Ty} {j : Nat} (hA : logicalKind "all" A = some (j, T)) :
+    A = Ty.fn (Ty.fn T Ty.bool) Ty.bool := by
+  unfold logicalKind at hA
+  split at hA
+  · next h => exact absurd h (by decide)
+  · next h => exact absurd h (by decide)
+  · simp only [Option.some.injEq, Prod.mk.injEq] at hA
+    obtain ⟨_, rfl⟩ := hA
+    rfl
+  · cases hA
 
 /-- the same for the body of an existing `all (λ…)`: instantiating the bound variable -/
 theorem holds_all_abs (M : Model) (ρ : Valuation) (hρ : Admissible M ρ) (A : Ty) (y : String) (T : Ty)
     (b : Term) (hb : Term.checkedGetType [T] b = .ok Ty.bool)
     (hA : logicalKind "all" A = some (2, T)) :
     holds M ρ (.comb (.const "all" A) (.abs y T b)) ↔ ∀ v, v < M.size T → sem M ρ [T] [v] b = 1 := by
-  sorry
+  have hAeq : A = Ty.fn (Ty.fn T Ty.bool) Ty.bool := logicalKind_all hA
+  subst hAeq
+  have hlt : Term.checkedGetType [] (.abs y T b) = .ok (Ty.fn T Ty.bool) := by
+    simp only [Term.checkedGetType, bind, Except.bind, hb]
+  have hp : sem M ρ [] [] (.abs y T b) < 2 ^ M.size T := by
+    have := sem_lt M ρ hρ [] [] Forall2.nil _ _ hlt
+    rwa [Model.size_fn, Model.size_bool] at this
+  unfold holds
+  rw [sem_all M ρ [] [] T _ hp]
+  constructor
+  · intro H v hv
+    have := appCode_sem_abs M ρ hρ [] [] Forall2.nil y T Ty.bool b hb v hv
+    rw [Model.size_bool] at this
+    rw [← this]
+    exact H v hv
+  · intro H v hv
+    have := appCode_sem_abs M ρ hρ [] [] Forall2.nil y T Ty.bool b hb v hv
+    rw [Model.size_bool] at this
+    rw [this]
+    exact H v hv
 
 end Holpy
